@@ -209,7 +209,7 @@ TReceive ==
   /\ IsEv("receive")
   /\ LET e == E  w == e.w
          a == [sl |-> e.sl, dest |-> e.dest, amt |-> e.amt, ttl |-> e.ttl, hasproof |-> e.hasproof, kernin |-> e.kernin]
-         bad == Has(e, "tamper") /\ e.tamper # ""      \* a request that cannot be served: refused without effect
+         bad == Has(e, "tamper") /\ e.tamper = "feat1"   \* a request that cannot be served: refused without effect
          \* (the key index is taken before the kernel is built: the gap it leaves is legal residue)
          \* named havoc: whether the refusal comes before or after the key index is taken depends on the reason
          r == IF bad THEN [steps |-> IF S2.w[w].idx = st.w[w].idx THEN <<>> ELSE <<BumpChild(st, w)>>, res |-> "bad", key |-> "", rep |-> 0]
